@@ -556,6 +556,8 @@ func (x *Exec) specCallExpr(env *SpecEnv, e *SExpr) Value {
 			return BoolV{App("timeparse_ok", SBool, x.asTerm(x.specEval(env, e.Args[0])))}
 		case "timeparse_val":
 			return IntV{App("timeparse_val", SInt, x.asTerm(x.specEval(env, e.Args[0])))}
+		case "jsonhas":
+			return BoolV{App("jsonhas", SBool, x.identityOf(env.st, x.specEval(env, e.Args[0])), x.identityOf(env.st, x.specEval(env, e.Args[1])))}
 		case "jsonfield":
 			return IntV{App("jsonfield", SInt, x.identityOf(env.st, x.specEval(env, e.Args[0])), x.identityOf(env.st, x.specEval(env, e.Args[1])))}
 		case "httptime_ok":
